@@ -602,7 +602,8 @@ def expected_tree(s):
                 ts(4, src.get('media_type', '')), ts(5, src.get('url', '')), tb(6, bytes.fromhex(src.get('sd_hash', ''))),
                 tb(7, bytes.fromhex(src.get('bt_infohash', '')))]
         body = []
-        if any(x is not None for x in srcf):
+        if any(x is not None for x in srcf) or 'size' in src:
+            # assigning a size, even 0, makes the (possibly empty) source sub-message present
             body.append(tm(1, srcf))
         body += [ts(2, s.get('author', '')), ts(3, s.get('license', '')), ts(4, s.get('license_url', '')),
                  tv(5, s.get('release_time', 0) % M64)]
@@ -896,8 +897,14 @@ def check_bare(run, model, which, sg, kind):
 # of the API as documented (a given currency wins over the stored one, an amount alone keeps the currency,
 # an address alone keeps both, clear_fee removes the fee), and everything is verified after every step
 # ------------------------------------------------------------------------------------------------
+MEDIA_FIELDS = {'image': ('width', 'height'), 'video': ('width', 'height', 'duration'), 'audio': ('duration',)}
+
+
 def gen_step(rng, spec):
-    kinds = ['fee-new', 'fee-new', 'fee-new', 'title', 'tags', 'release', 'author']
+    kinds = ['fee-new', 'fee-new', 'fee-new', 'title', 'tags', 'release', 'author', 'size']
+    mkind = spec.get('media', {}).get('kind')
+    if mkind in MEDIA_FIELDS:
+        kinds += ['media'] * 4
     if 'fee' in spec:
         kinds += ['fee-other-currency', 'fee-other-currency', 'fee-other-currency', 'fee-amount', 'fee-address', 'fee-clear']
     k = rng.choice(kinds)
@@ -921,7 +928,14 @@ def gen_step(rng, spec):
     elif k == 'tags':
         st['tags'] = gen_tags(rng) or ['x']
     elif k == 'release':
-        st['release_time'] = rng.choice(I64_EDGES[1:])
+        st['release_time'] = rng.choice(I64_EDGES + [0, 0])
+    elif k == 'size':
+        st['size'] = rng.choice([0, 0, 1, 2 ** 64 - 1, rng.randrange(2 ** 64)])
+    elif k == 'media':
+        fields = [f for f in MEDIA_FIELDS[mkind] if rng.random() < 0.6] or [rng.choice(MEDIA_FIELDS[mkind])]
+        st['values'] = {f: rng.choice([0, 0, 0, 1, 2 ** 32 - 1, rng.randrange(1, 2 ** 32)]) for f in fields}
+    if k in ('fee-new', 'fee-other-currency', 'fee-amount') and rng.random() < 0.08:
+        st['amount'] = rng.choice(['0', '0.0', '0.00'])
     return st
 
 
@@ -959,6 +973,12 @@ def apply_step(claim, spec, st):
     elif k == 'release':
         kw = {'release_time': st['release_time']}
         spec['release_time'] = st['release_time']
+    elif k == 'size':
+        kw = {'file_size': st['size']}
+        spec['source']['size'] = st['size']
+    elif k == 'media':
+        kw = dict(st['values'])
+        spec['media'].update(st['values'])
     claim.stream.update(**kw)
     return spec
 
@@ -1332,6 +1352,59 @@ def legacy_read(claim):
     return out
 
 
+def ref_partial_langtag(tag):
+    """what is left of a language tag after the decoder has consumed as much as it can, in its order: language,
+    a 4-letter script, a 2-letter region, a 3-digit region; whatever cannot be consumed is dropped, an unknown code stops
+    the reading; nothing at all readable leaves an empty entry"""
+    parts = tag.split('-')
+    lang = parts.pop(0)
+    if lang not in LANGS:
+        return ''
+    script = region = None
+    try:
+        if parts and len(parts[0]) == 4:
+            p = parts.pop(0)
+            if p not in SCRIPTS:
+                raise KeyError
+            script = p
+        if parts and len(parts[0]) == 2 and parts[0].isalpha():
+            p = parts.pop(0)
+            if p not in ALPHA2:
+                raise KeyError
+            region = p
+        if parts and len(parts[0]) == 3 and parts[0].isdigit():
+            p = parts.pop(0)
+            if p not in REGION3:
+                raise KeyError
+            region = p
+    except KeyError:
+        pass
+    return '-'.join(x for x in (lang, script, region) if x)
+
+
+LEGACY_LANGUAGE_TAILS = ['-x', '-foo', '-cmn-Hans', '-US-x', '-Latn-US-posix', '-u-co-phonebk', '-1996', '-US-419', '-', '--',
+                         '-Latn-', '-us', '-br', '-LATN', '-Hans-CN-x-private', '-001-x', '-valencia']
+
+
+def gen_legacy_language(rng):
+    """(value of the JSON "language" key, the language tags the decoded claim must show)"""
+    c = rng.random()
+    if c < 0.15:
+        return rng.choice(['English', 'english', 'ENGLISH', 'eNgLiSh']), ['en']
+    if c < 0.35:
+        tag = rng.choice(LANGS)
+        return tag, [tag]
+    if c < 0.5:
+        tag = gen_language(rng)                       # language[-script][-region], all known codes
+        return tag, [tag]
+    if c < 0.8:
+        base = gen_language(rng) if rng.random() < 0.5 else rng.choice(['en', 'zh', 'es', 'pt', 'de'])
+        tag = base + rng.choice(LEGACY_LANGUAGE_TAILS)  # a valid start followed by subtags the API cannot consume
+        return tag, [ref_partial_langtag(tag)]
+    tag = rng.choice(['Klingon', 'xx', 'e n', 'EN', 'En', 'en_US', 'EN-us', ' en', 'en ', 'eng', 'english-US', '-en', 'zz-Latn'])
+    return tag, [ref_partial_langtag(tag)]
+
+
 def gen_legacy_json(rng):
     d = {'sources': {'lbry_sd_hash': gen_hex(rng, 48)}}
     e = {'version': 0, 'claim_type': 'stream', 'signed': False, 'sd_hash': d['sources']['lbry_sd_hash']}
@@ -1348,17 +1421,9 @@ def gen_legacy_json(rng):
     if rng.random() < 0.5:
         d['thumbnail'] = rng.choice(['', 'http://t/x.png', '/home/x.jpg'])
     e['thumbnail_url'] = d.get('thumbnail', '')
-    c = rng.random()
     e['langtags'] = []
-    if c < 0.3:
-        d['language'] = rng.choice(['English', 'english', 'ENGLISH'])
-        e['langtags'] = ['en']
-    elif c < 0.6:
-        d['language'] = rng.choice([l for l in LANGS])
-        e['langtags'] = [d['language']]
-    elif c < 0.7:
-        d['language'] = rng.choice(['Klingon', 'xx', 'e n'])     # not a known tag: the decoder swallows the error
-        e['langtags'] = ['']                                     # and leaves the empty Language entry it had added
+    if rng.random() < 0.8:
+        d['language'], e['langtags'] = gen_legacy_language(rng)
     if rng.random() < 0.5:
         d['nsfw'] = rng.random() < 0.5
     e['tags'] = ['mature'] if d.get('nsfw') else []
@@ -1480,7 +1545,7 @@ def check_legacy(run, model, data, expect, kind, channel_tx=None, stream_tx=None
     try:
         claim = Claim.from_bytes(data)
     except Exception as ex:                                   # noqa
-        run.violation(case, f'legacy claim no longer decodes: {type(ex).__name__}: {ex}'[:300],
+        run.violation(case, f'legacy claim no longer decodes ({type(ex).__name__} escapes Claim.from_bytes): {ex}'[:300],
                       signature={'op': 'legacy', 'data': data.hex()})
         return
     got = legacy_read(claim)
